@@ -9,7 +9,7 @@ LEAN_TARGETS = ['NdnProofs.Props.C13']
 THEOREMS = [
     'Ndn.C13.sanity_iff_documented', 'Ndn.C13.modelError_iff_not_sane', 'Ndn.C13.accepted_sane',
     'Ndn.C13.match_terminates', 'Ndn.C13.match_stable', 'Ndn.C13.check_terminates',
-    'Ndn.C13.match_no_exception', 'Ndn.C13.compile_sane_partial',
+    'Ndn.C13.match_no_exception', 'Ndn.C13.sign_cycle_rejected', 'Ndn.C13.compile_sane_partial',
 ]
 PARTIAL = {
     'Ndn.C13.compile_sane_partial':
@@ -17,7 +17,7 @@ PARTIAL = {
         '_fix_signing_references) are not modelled in Lean, so "static error => SemanticError" and "error-free schema '
         '=> accepted model" are not theorems; they are checked on every run by the schema-level oracle (injected errors '
         'of each kind at every position). Proved: the loader accepts a model iff it obeys the documented rules and '
-        'top_order finds no signing loop. That kahn/top_order accepts exactly the acyclic signing graphs is modelled '
+        'top_order finds no signing loop; a signing cycle among reachable nodes is refused (sign_cycle_rejected); the converse (acyclic => top_order accepts) is modelled '
         'and compared with the implementation but not proved.',
 }
 TRUSTED = [
